@@ -147,13 +147,48 @@ def blocks_calling(fn, pred):
     return out
 
 
+def status_fail_edges(fn):
+    """Edges that only failing runs take in a function written in the `Status status = OkStatus(); if
+    (status.ok()) status = Step(); ... return status;` style: the false edge of every `status.ok()` test on a
+    Status local that the function returns.  Success-path analyses (must-pass, reset) leave them out."""
+    cache = fn.__dict__.get("_status_fail_edges")
+    if cache is not None:
+        return cache
+    returned = set()
+    for b, ev in fn.returns():
+        e = ev.get("e")
+        while isinstance(e, dict) and e.get("k") in ("copy", "icast", "cast", "paren", "mat", "bind"):
+            e = e.get("e")
+        if isinstance(e, dict) and e.get("k") == "var" and "d" in e and "Status" in (e.get("t") or ""):
+            returned.add(e["d"])
+    out = set()
+    if returned:
+        for b in fn.blocks.values():
+            if b.cond is None or len(b.succ) != 2 or b.labels is not None:
+                continue
+            tree, pos = _strip_not(b.cond, True)
+            t = tree
+            while isinstance(t, dict) and t.get("k") in ("copy", "icast", "cast", "paren"):
+                t = t.get("e")
+            if isinstance(t, dict) and t.get("k") == "call" and (t.get("fn") or "").endswith("Status::ok"):
+                o = t.get("obj")
+                while isinstance(o, dict) and o.get("k") in ("copy", "icast", "cast", "paren"):
+                    o = o.get("e")
+                if isinstance(o, dict) and o.get("k") == "var" and o.get("d") in returned:
+                    fail = b.succ[1] if pos else b.succ[0]
+                    if fail is not None and b.succ[0] != b.succ[1]:
+                        out.add((b.id, fail))
+    fn.__dict__["_status_fail_edges"] = out
+    return out
+
+
 def must_pass(fn, pass_blocks, assume_edges_removed=(), delegate=None):
     """Success returns reachable from entry without visiting pass_blocks.
     delegate(call_node) -> True when `return <call>` hands the obligation to
     a callee that itself must-passes. Returns list of offending (block, ev)."""
     bad = []
     reach = fn.reachable(removed_blocks=set(pass_blocks),
-                         removed_edges=set(assume_edges_removed))
+                         removed_edges=set(assume_edges_removed) | status_fail_edges(fn))
     for b, ev, c in success_returns(fn):
         if b.id in pass_blocks:
             continue
